@@ -82,7 +82,7 @@ pub fn kind_ok(k: Kind, neg: bool, m: u64, e: i32, fd: u32, id: u32, class: u8) 
             let x_neg = neg && (mag != 0 || huge);
             let bits = if neg { mag.wrapping_neg() } else { mag };
             let ovf = if huge { true } else if !x_neg { if d >= 128 { false } else { (mag >> d) != 0 } } else { mag > (1u128 << (d - 1)) };
-            n == neg && conv.neg_variant == x_neg && conv.dir == (if neg { -dirmag } else { dirmag })
+            n == (neg && m != 0) && conv.neg_variant == x_neg && conv.dir == (if neg { -dirmag } else { dirmag })
                 && conv.bits == bits && conv.overflow == ovf
         }
         _ => false,
